@@ -1,6 +1,7 @@
 import Falcon.Driver.Util
 import Falcon.Model.Zq
 import Falcon.Model.Codec
+import Falcon.Model.KeyCodec
 import Falcon.Spec.Codec
 /- dispatch of one line-protocol op to the model -/
 namespace Falcon.Driver
@@ -11,6 +12,39 @@ def rangeInts (lo : Int) (n : Nat) : List Int := (List.range n).map fun (i : Nat
 def seqRes {α : Type} : List (Res α) → Res (List α)
   | [] => .ok []
   | r :: rs => do let a ← r; let as ← seqRes rs; pure (a :: as)
+
+def renderErr : KeyCodec.DecErr → String
+  | .CannotDetermineFieldElementEncodingMethod => "CannotDetermineFieldElementEncodingMethod"
+  | .CannotInferFalconVariant => "CannotInferFalconVariant"
+  | .InvalidHeaderFormat => "InvalidHeaderFormat"
+  | .InvalidLogN => "InvalidLogN"
+  | .BadEncodingLength => "BadEncodingLength"
+  | .BadFieldElementEncoding => "BadFieldElementEncoding"
+  | .WrongVariant => "WrongVariant"
+
+def renderDec (r : Res (Except KeyCodec.DecErr (List Nat))) : String :=
+  renderRes (fun e => match e with
+    | .ok b => "Ok " ++ renderHex b
+    | .error k => "Err " ++ renderErr k) r
+
+/-- decode, then re-encode what was decoded (what the implementation-side op prints) -/
+def pkReencode (N : Nat) (b : List Nat) : Res (Except KeyCodec.DecErr (List Nat)) := do
+  match ← KeyCodec.pkFromBytes N b with
+  | .error e => pure (.error e)
+  | .ok h => pure (.ok (KeyCodec.pkToBytes h))
+
+def skReencode (chk : Bool) (N : Nat) (b : List Nat) : Res (Except KeyCodec.DecErr (List Nat)) := do
+  match ← KeyCodec.skFromBytes N b with
+  | .error e => pure (.error e)
+  | .ok (f, g, cF) => do
+    let bal (l : List Nat) : Res (List Int) := l.mapM (Zq.balanced chk)
+    let out ← KeyCodec.skToBytes chk (← bal f) (← bal g) (← bal cF)
+    pure (.ok out)
+
+def sigReencode (N : Nat) (b : List Nat) : Res (Except KeyCodec.DecErr (List Nat)) := do
+  match ← KeyCodec.sigFromBytes N b with
+  | .error e => pure (.error e)
+  | .ok (salt, s) => pure (.ok (KeyCodec.sigToBytes salt s))
 
 def execOp (chk : Bool) (tok : List String) : String :=
   match tok with
@@ -46,6 +80,9 @@ def execOp (chk : Bool) (tok : List String) : String :=
   | ["compress", l, v] => renderRes renderOptHex (Codec.compress (parseInts v) (parseNat l))
   | ["ref_decompress", n, hx] => renderOptInts (Spec.decompressRef Gen.unaryCapMid (parseHex hx) (parseNat n))
   | ["ref_compress", l, v] => renderOptHex (Spec.compressRef (parseInts v) (parseNat l))
+  | ["pk_from_bytes", n, hx] => renderDec (pkReencode (parseNat n) (parseHex hx))
+  | ["sk_from_bytes", n, hx] => renderDec (skReencode chk (parseNat n) (parseHex hx))
+  | ["sig_from_bytes", n, hx] => renderDec (sigReencode (parseNat n) (parseHex hx))
   | _ => "bad-op"
 
 end Falcon.Driver
